@@ -123,9 +123,12 @@ def _history(draw, tier):
             # ... and select the same variables: the engine memoises, per expression node, which variables its
             # enclosing query needs, so one condition object inside two queries with DIFFERENT selections is not a
             # supported input (nothing documents it); the same selection under another quantifier is
-            spec["sel"] = pool[j]["sel"]
-            spec["desc"] = pool[j]["desc"]
-            spec["quant"] = "the" if pool[j]["quant"] == "an" else "an"
+            if draw(st.booleans()):
+                spec["sel"] = pool[j]["sel"]
+                spec["desc"] = pool[j]["desc"]
+                spec["quant"] = "the" if pool[j]["quant"] == "an" else "an"
+            else:
+                spec["other_selection"] = True
             spec["share_with"] = j
         pool.append(spec)
     ops = []
